@@ -1,9 +1,11 @@
 import Driver.Kern
 import Driver.Preds
+import Driver.Suite
+import Driver.Convert
 open Sunrise.Driver
 
 def evalLine (line : String) : String :=
-  match (line.trimAscii.toString.splitOn " ").filter (· ≠ "") with
+  match tokens line with
   | "D" :: rest => evalD rest
   | "K" :: rest => evalK rest
   | "P" :: rest => evalP rest
@@ -15,7 +17,21 @@ partial def loop (h : IO.FS.Stream) (out : IO.FS.Stream) : IO Unit := do
   out.putStrLn (evalLine line)
   loop h out
 
+/-- stateful suites: first input line `suite <name>` -/
+def suites : List (String × (IO.FS.Stream → IO.FS.Stream → IO Unit)) := [
+  ("convert", ConvertSuite.run)
+]
+
 def main : IO Unit := do
   let out ← IO.getStdout
-  loop (← IO.getStdin) out
+  let inp ← IO.getStdin
+  let first ← inp.getLine
+  match tokens first with
+  | ["suite", name] =>
+    match suites.lookup name with
+    | some f => f inp out
+    | none => out.putStrLn "bad-suite"
+  | _ =>
+    if !first.isEmpty then out.putStrLn (evalLine first)
+    loop inp out
   out.flush
